@@ -43,7 +43,7 @@ PROFILE = {"n_states": (2, 5), "n_events": (1, 3), "extra_transitions": (1, 5), 
 def asyncify(rng, spec, mode):
     """Returns the coroutine twin of a sync spec."""
     tw = copy.deepcopy(spec)
-    cands = [c for c, cb in tw["cbs"].items() if cb["kind"] != "lambda"]
+    cands = [c for c, cb in tw["cbs"].items() if cb["kind"] not in ("lambda", "boundm")]
     gcands = [g for g, d in tw["guards"].items() if d["kind"] == "method"]
     vcands = list(tw["validators"])
     if mode == "all":
@@ -100,7 +100,7 @@ def make_case(rng, i):
         # a plain function returning an awaitable: asynchronous for the caller, plain when unwrapped
         for grp in (twin["cbs"], twin["guards"], twin["validators"]):
             for x in grp.values():
-                if x.get("async") and x.get("kind") not in ("lambda", "prop", "attr") and not x.get("sigdeco") and not x.get("afuture"):
+                if x.get("async") and x.get("kind") not in ("lambda", "boundm", "prop", "attr") and not x.get("sigdeco") and not x.get("afuture"):
                     x["awrap"] = True
     # H7: nested sends only in callbacks that are coroutines in the twin (same scripts on both sides)
     for c, cb in twin["cbs"].items():
